@@ -27,7 +27,7 @@ TECHNIQUE = ('deterministic simulation of the upgrade history across the '
              'process per run, signal + statement trace, django_migrations '
              'and stored signature read with sqlite3, sql_error@k + retry')
 PLAN = {
-    'quick': {'count': 260, 'max_wall': 170, 'shrink_budget': 20,
+    'quick': {'count': 400, 'max_wall': 170, 'shrink_budget': 20,
               'shrink_wall': 100},
     'thorough': {'count': 5000, 'max_wall': 1500, 'shrink_budget': 50,
                  'shrink_wall': 300},
